@@ -160,3 +160,13 @@ def view_at(I, d, B, lo):
 
 
 view_at.py = lambda d, B, lo: bytes(d) == bytes(B[lo:lo + len(d)])
+
+
+@_native
+def field_at(I, B, off, size):
+    """value of the unsigned field of `size` bytes (1, 2, 4, 8) at offset off in the file's byte order: the leaf of the
+    K2-checked layouts Elf_byte / Elf_half / Elf_word / Elf_word64"""
+    import z3
+    from pyvc.vals import ArrS, IntS, to_int
+    name = {1: 'Elf_byte', 2: 'Elf_half', 4: 'Elf_word', 8: 'Elf_word64'}[size]
+    return z3.Function(name, ArrS, IntS, IntS)(B.arr, to_int(off))
